@@ -55,7 +55,7 @@ REQUIRED = [
     'batches_compared', 'agg_compared', 'returned_agg_compared', 'twin_compared',
     'strict_cnt_checks', 'shard_union_checks', 'merged_results_compared', 'fanout_runs',
     'shared_iterator_runs', 'worker_threads', 'shim_futures_installed', 'fuse_by_chain_layouts',
-    'two_agg_stage_specs', 'strategy_d_threaded', 'sliced_merged_results_compared',
+    'two_agg_stage_specs', 'strategy_d_threaded', 'shard_without_source_checks', 'sliced_merged_results_compared',
     'sliced_shards_with_different_key_sets',
 ]
 CHUNK_TIMEOUT_S = {'quick': 300, 'thorough': 3000}
@@ -615,7 +615,42 @@ def chunk_e1(ctx, spec):
             want, twin)
 
 
+def check_shard_without_source(ctx, k, n):
+  """make(shard=) on a pipeline no stage of which owns a data source: either it is
+  rejected, or the k shard runs over the data handed to iterate() partition it."""
+  from ml_metrics._src.chainables import io, transform
+  from vlib import c16lib
+  T = transform.TreeTransform
+  case = {'strategy': 'shard_without_source', 'k': k, 'n': n}
+  ctx.count('shard_without_source_checks')
+  ctx.case(('shard_without_source', k, n), k >= 2 and n >= 2)
+  data = [[i] for i in range(n)]
+  outs = []
+  for layout in ('fused', 'chained'):
+    if layout == 'fused':
+      p = T.new().apply(fn=c16lib.op_square).aggregate(fn=c16lib.SumCount(), output_keys='agg')
+    else:
+      p = T.new(name='a').apply(fn=c16lib.op_square).chain(
+          T.new(name='b').aggregate(fn=c16lib.SumCount(), output_keys='agg'))
+    got = []
+    try:
+      for i in range(k):
+        got.extend(map(list, p.make(shard=io.ShardConfig(i, k)).iterate(data)))
+    except Exception as e:  # pylint: disable=broad-exception-caught
+      ctx.observe('shard_without_source_rejected', f'{layout}: {type(e).__name__}')
+      continue
+    want = sorted([i * i] for i in range(n))
+    if sorted(got) != want:
+      ctx.violation('shard_without_data_source_not_a_partition', dict(case, layout=layout),
+                    {'got': sorted(got)[:40], 'want': want[:40]},
+                    mechanism='d:make-shard-without-data-source-runs-whole-input')
+  del outs
+
+
 def run_chunk(ctx, spec):
+  if spec['mode'] == 'e1':
+    for k in (1, 2, 3):
+      check_shard_without_source(ctx, k, 4)
   {'sched': chunk_sched, 'native': chunk_native, 'e1': chunk_e1}[spec['mode']](ctx, spec)
 
 
@@ -624,6 +659,9 @@ def run_case(ctx, case):
   spec = case['spec']
   want = w.expected(spec)
   strategy = case['strategy']
+  if strategy == 'shard_without_source':
+    check_shard_without_source(ctx, case['k'], case['n'])
+    return
   if strategy == 'a':
     run_a(ctx, spec, want)
     return
